@@ -43,6 +43,15 @@ def gen_base(rng, tier, index):
                 "calls": [{"ordered": True, "n": 6, "chunk": 1, "form": "list", "pause_after": pause},
                           {"ordered": False, "n": 7, "chunk": 2, "form": "gen", "pause_after": 0.5},
                           {"ordered": True, "n": 3, "chunk": 1, "form": "list"}]}
+    if index % 8 == 5:
+        # many short calls, each with fewer chunks than the quota, together far more than workers*quota: retirements are
+        # spread over calls and fall at call boundaries
+        q = rng.choice([2, 3, 4])
+        w = rng.choice([1, 2])
+        calls = [{"ordered": ci % 2 == 0, "n": (q - 1) * ch, "chunk": ch, "form": rng.choice(["list", "list", "tuple", "gen"]),
+                  "salt": ci} for ci, ch in enumerate(rng.choice([1, 2]) for _ in range(rng.randint(6, 9)))]
+        return {"pool": "factory", "workers": w, "quota": q, "wq": rng.choice([None, 1, 1.0]), "rq": rng.choice([None, 1, 2]),
+                "calls": calls}
     factory = index % 4 != 3
     workers = rng.choice([1, 2, 2, 3])
     quota = rng.choice([1, 1, 2, 3, 5]) if factory and index % 8 != 6 else None
